@@ -25,10 +25,14 @@ pub fn gen_case(rng: &mut Rng, thorough: bool, index: u64) -> Value {
         _ => Value::Null,
     };
     let alg = if index % 50 == 49 { keys::alg_name(&keys::ALL_ALGS[(index / 50) as usize % 13]) } else { "HS256" };
-    json!({
+    let mut case = json!({
         "tree": tree.to_wire(), "order": order, "decoy": decoy,
         "kb": rng.chance(1, 5), "exp": rng.chance(1, 4), "alg": alg,
-    })
+    });
+    // explicit in the case (a function of the tree as generated), so that a reduced case replays the same way
+    let wire = case["tree"].clone();
+    case["reissue"] = json!([0u64, 0, 0, 1, 2][(crate::report::hash_of(&wire) % 5) as usize]);
+    case
 }
 
 pub fn alg_by_name(name: &str) -> Algorithm {
